@@ -130,6 +130,16 @@ func (e *Env) Judge(l *RunLog) ([]Finding, Stats) {
 					}
 				}
 			}
+			if f.Txn == 0 && f.Seq != 0 {
+				// internally consistent: (seq, offset) is the pair of ONE committed unit record
+				match := false
+				for _, t := range v.TUnits {
+					match = match || (t.Complete() && t.Txn <= f.ReqSeq && t.Seq == f.Seq && t.End == f.Off)
+				}
+				if !match {
+					add("frontier|seq-offset-mismatch", "request %d stored frontier seq=%d offset=%d: no committed unit record carries that pair", f.ReqSeq, f.Seq, f.Off)
+				}
+			}
 			if prevF != nil && (f.Off < prevF.Off || f.Seq < prevF.Seq) {
 				add("monotone|stored-frontier-decreased", "request %d stored frontier (seq %d, offset %d) after (seq %d, offset %d) stored by request %d", f.ReqSeq, f.Seq, f.Off, prevF.Seq, prevF.Off, prevF.ReqSeq)
 			}
